@@ -85,8 +85,9 @@ def data_part(text):
     i = text.index("\n~Other ")
     j = text.index("\n", i + 1)
     lines = text[j + 1:].split("\n")
-    assert lines[-1] == ""
-    return lines[:-1]
+    # (every written line is terminated; an unterminated last line is returned as it is, marked, so that it shows up as a
+    # disagreement with the model instead of stopping the harness)
+    return lines[:-1] if lines[-1] == "" else lines[:-1] + [lines[-1] + "<no line terminator>"]
 
 
 def lines_request(cfg, null_text, session_names, rows):
@@ -455,6 +456,14 @@ def stream_files(run):
         kind, rows = gen_matrix(rng, cfg, nrows, ncols, null)
         go(mg.names(rng, ncols), rows, null, cfg, "edited-in-place-after-write", earlier=earlier)
 
+    # long files: more rows than any buffer or block size a writer might use (2 columns, unpadded and padded, with and without a
+    # left-hand spacer); every row must still be one line of its own
+    for nrows, lnf, lhs in ((2050, -1, ""), (4100, None, ""), (2049, -1, " "), (2048, 12, "")):
+        cfg = mg.default_cfg()
+        cfg.update(len_numeric_field=lnf, lhs_spacer=lhs, fmt="%.2f")
+        rows = [[1000.0 + 0.5 * i, float((7 * i) % 13) - 3.25] for i in range(nrows)]
+        go(["DEPT", "GR"], rows, -999.25, cfg, "long-file")
+        flush(run, pending)
     # the historical failure: 14, 21, 28 curves, wrap=True, default widths (7 fields per physical line)
     for ncols in (7, 14, 21, 28, 35, 6, 8, 13, 15):
         for nrows in (1, 2, 3, 5):
